@@ -247,7 +247,8 @@ ToSizeClause(c) ==
 
 \* ------------------------------------------------------------ subdivide_loop
 LoopClause(c) ==
-    IF ~InRange(c.f1, c.nv1) THEN "result_face_index_out_of_range"
+    IF c.off # "" THEN "result_offlattice_" \o c.off               \* here: a coordinate that is not finite
+    ELSE IF ~InRange(c.f1, c.nv1) THEN "result_face_index_out_of_range"
     ELSE IF Watertight(c.f1) # Watertight(c.f0) THEN "loop_changed_watertightness"
     ELSE IF Euler(c.f1) # Euler(c.f0) THEN "loop_changed_the_euler_number"
     ELSE "ok"
